@@ -739,8 +739,11 @@ class TagAttributes(MutableMapping):
 
         if isinstance(other, TagAttributes):
             # TODO optimize with native data model
+            other_keys = set(other)
             for key, attribute in self.items():
                 assert isinstance(attribute, Attribute)
+                if key not in other_keys:
+                    return False
                 other_value = other.get((attribute.namespace, attribute.local_name))
                 if (other_value is None) or (attribute != other_value):
                     return False
